@@ -29,12 +29,32 @@ type op struct {
 	Lim int    `json:"lim"`
 }
 type history struct {
-	ID  int  `json:"id"`
-	U   int  `json:"u"`
-	Ops []op `json:"ops"`
+	ID    int   `json:"id"`
+	U     int   `json:"u"`
+	Ops   []op  `json:"ops"`
+	Atoms []int `json:"atoms"` // when present: operands are indices of atoms, blocks of integers that start here
+	Top   int   `json:"top"`   // last element of the last atom
+}
+
+// first and last element of atom k (or k itself in a history over plain integers)
+func (h history) lo(k int) rune {
+	if len(h.Atoms) == 0 {
+		return rune(k)
+	}
+	return rune(h.Atoms[k])
+}
+func (h history) hi(k int) rune {
+	if len(h.Atoms) == 0 {
+		return rune(k)
+	}
+	if k+1 < len(h.Atoms) {
+		return rune(h.Atoms[k+1] - 1)
+	}
+	return rune(h.Top)
 }
 type regObs struct {
 	Len      int    `json:"len"`
+	LenQR    [2]int `json:"lenqr"` // Len() as quotient and remainder of 65536 (the judge's integers are 32 bits wide)
 	Has      []bool `json:"has"`
 	Str      []int  `json:"str"`
 	StrOK    bool   `json:"strok"` // String() returned and had the documented shape
@@ -73,15 +93,19 @@ func run(h history) []stepObs {
 		st.Panic = guard(func() {
 			switch o.Op {
 			case "add":
-				regs[o.R-1].AddRange(rune(o.B), rune(o.E))
+				regs[o.R-1].AddRange(h.lo(o.B), h.hi(o.E))
 			case "add1":
-				regs[o.R-1].Add(rune(o.B))
+				if len(h.Atoms) == 0 {
+					regs[o.R-1].Add(rune(o.B))
+				} else {
+					regs[o.R-1].AddRange(h.lo(o.B), h.hi(o.B))
+				}
 			case "copy":
 				regs[o.R-1] = regs[o.A-1].Copy()
 			case "union":
 				regs[o.R-1] = regs[o.A-1].Union(regs[o.B-1])
 			case "compl":
-				regs[o.R-1] = regs[o.A-1].Complement(rune(o.Lim))
+				regs[o.R-1] = regs[o.A-1].Complement(h.hi(o.Lim))
 			default:
 				panic("unknown op " + o.Op)
 			}
@@ -90,12 +114,26 @@ func run(h history) []stepObs {
 			var ro regObs
 			ro.Panic = guard(func() {
 				ro.Len = s.Len()
+				if len(h.Atoms) > 0 {
+					ro.LenQR = [2]int{ro.Len / 65536, ro.Len % 65536}
+					ro.Len = 0
+					ro.Has = make([]bool, 0, 2*(h.U+1))
+					for k := 0; k <= h.U; k++ {
+						ro.Has = append(ro.Has, s.Has(h.lo(k)), s.Has(h.hi(k)))
+					}
+					return
+				}
 				ro.Has = make([]bool, h.U+2)
 				for x := 0; x <= h.U+1; x++ {
 					ro.Has[x] = s.Has(rune(x))
 				}
 			})
 			ro.Str = []int{}
+			if len(h.Atoms) > 0 {
+				ro.StrOK = true // the element list of a set of up to 2^31 integers is not asked for
+				st.Regs = append(st.Regs, ro)
+				continue
+			}
 			ro.StrPanic = guard(func() {
 				// the property fixes the content (the ascending element list), not the punctuation
 				str := s.String()
@@ -136,7 +174,7 @@ func main() {
 	scen := flag.String("scen", "", "glob of history ndjson files")
 	outp := flag.String("out", "", "joined output ndjson: {h: history, steps: [...]}")
 	deadline := flag.Duration("deadline", 10*time.Second, "per-history deadline")
-	hangs := 0
+	hangs, stop := 0, false
 	flag.Parse()
 	paths, _ := filepath.Glob(*scen)
 	f, err := os.Create(*outp)
@@ -175,20 +213,25 @@ func main() {
 					steps = []stepObs{}
 				}
 				rec := map[string]any{"h": json.RawMessage(bytes.TrimSpace(line)), "steps": steps, "hang": hang}
-				if hangs > 8 {
-					fmt.Fprintln(os.Stderr, "setrun: too many hanging histories")
-					os.Exit(3)
-				}
 				b, _ := json.Marshal(rec)
 				w.Write(b)
 				w.WriteByte('\n')
 				n++
+				if hangs > 8 {
+					// every abandoned goroutine keeps a core busy: the hangs recorded so far are observations
+					// enough, the remaining histories are not replayed
+					fmt.Fprintln(os.Stderr, "setrun: stopped after", hangs, "hanging histories")
+					stop = true
+				}
 			}
-			if err != nil {
+			if err != nil || stop {
 				break
 			}
 		}
 		in.Close()
+		if stop {
+			break
+		}
 	}
 	w.Flush()
 	f.Close()
